@@ -26,7 +26,7 @@ ASSUMPTIONS = [
     "RealizationFilter interface contract: returns some non-negative (R,) vector; FunctionEstimator other than the default not covered",
     "value clauses are required only where some realization with positive in-force weight succeeds (as in the quantifier)",
     "sqrt is an uninterpreted function with s >= 0 and s*s = x",
-    "bounded in shape only: R <= 3 (4 in the thorough tier), J <= 2, K <= 1, batch <= 2 (3)",
+    "bounded in shape only: R <= 3 (4 in the thorough tier), J <= 2, K <= 1, batch <= 2 (3); plus J = K = 3 with interleaved maps for given weights",
 ]
 
 ME = "ropt.ensemble_evaluator._ensemble_evaluator"
@@ -73,7 +73,7 @@ def cases_functions(tier):
                         # ([1], None): the filter configured first is used by no function (objects are looked up by configured index)
                         fmaps += [([0], None), ([1], None)]
                     for omf, cmf in fmaps:
-                        for ms in ((1,) if quick else (0, 1, R)):
+                        for ms in (((0, 1) if all(mask) else (1,)) if quick else (0, 1, R)):
                             c = {"R": R, "J": J, "K": K, "B": B, "failed": mask, "est": est, "omap_est": emap, "cmap_est": None if not K or len(est) == 1 else [1] * K,
                                  "omap_flt": omf, "cmap_flt": cmf, "min_success": ms}
                             cid = "R%dJ%dK%dB%d/%s/est=%s%s/flt=%s,%s/min=%d" % (R, J, K, B, "".join("F" if f else "o" for f in mask), "+".join(est), emap, omf, cmf, ms)
@@ -105,6 +105,22 @@ def cases_stddev(tier):
                 "min_success": 1, "cw": wts, "prior_failed": prior}
 
 
+def cases_wide(tier):
+    """Three functions of a kind, with estimator and filter maps that are interleaved or have gaps (functions of one estimator or
+    filter not adjacent; an estimator or filter used by no function of a kind; unfiltered functions between filtered ones)."""
+    for mask in ([False, False, False], [False, True, False]):
+        m = "".join("F" if f else "o" for f in mask)
+        for omf, cmf in (([0, -1, 0], [-1, 1, -1]), ([1, -1, 1], [0, -1, -1]), ([-1, 0, 1], [1, 1, 0])):
+            yield "R3J3K3/%s/est=mean/flt=%s,%s/given-weights" % (m, omf, cmf), {"R": 3, "J": 3, "K": 3, "B": 1, "failed": mask, "est": ["mean"], "omap_est": None, "cmap_est": None,
+                                                               "omap_flt": omf, "cmap_flt": cmf, "min_success": 1, "cw": [0.2, 0.3, 0.5]}
+        for est, ome, cme in ((["mean", "stddev"], [1, 0, 1], [0, 1, 0]), (["mean", "mean", "stddev"], [0, 2, 2], [1, 1, 2]), (["stddev", "mean", "mean"], [2, 0, 2], [0, 0, 1])):
+            yield "R3J3K3/%s/est=%s,%s,%s/given-weights" % (m, "+".join(est), ome, cme), {"R": 3, "J": 3, "K": 3, "B": 1, "failed": mask, "est": est, "omap_est": ome, "cmap_est": cme,
+                                                                                  "omap_flt": None, "cmap_flt": None, "min_success": 1, "cw": [0.2, 0.3, 0.5]}
+    yield "R3J3K3/ooo/est=mean+stddev,[1, 0, 1],[0, 1, 0]/flt=[0, -1, 0],[-1, 1, -1]/given-weights", {
+        "R": 3, "J": 3, "K": 3, "B": 1, "failed": [False] * 3, "est": ["mean", "stddev"], "omap_est": [1, 0, 1], "cmap_est": [0, 1, 0], "omap_flt": [0, -1, 0], "cmap_flt": [-1, 1, -1],
+        "min_success": 1, "cw": [0.2, 0.3, 0.5]}
+
+
 def scn_functions(T, case):
     from ropt.exceptions import OptimizationAborted
 
@@ -115,7 +131,7 @@ def scn_functions(T, case):
     F = 2
     if case.get("cw") is not None:
         cfgw = T.const(np.array(case["cw"], dtype=float))
-        W = [T.const(np.array(case["cw"][::-1], dtype=float)) for f in range(F)]
+        W = [T.const(np.roll(np.array(case["cw"], dtype=float), f + 1)) for f in range(F)]
     else:
         cfgw = T.real("weights", (R,), lo=0.0)
         W = [T.real("W%d" % f, (R,), lo=0.0) for f in range(F)]
@@ -160,6 +176,8 @@ def scn_functions(T, case):
             continue
         if nok == 0:
             T.prove("C01.all_failed_gives_nan", T.all([T.np.isnan(res.functions.objectives[j]) for j in range(J)]) & T.np.isnan(res.functions.weighted_objective))
+            if K:
+                T.prove("C01.all_failed_gives_nan", T.all([T.np.isnan(res.functions.constraints[j]) for j in range(K)]), "constraints")
             continue
         objs = []
         for kind, cnt, table, emap, reported, wrows in (("o", J, O, case["omap_est"], res.functions.objectives, res.realizations.objective_weights),
@@ -214,11 +232,30 @@ def scn_steps(T, case):
     stepcontract.scenario(T, case, "C01")
 
 
+# ------------------------------------------------------------------------------------ filters on some functions + failed realizations, one request or two
+def cases_filters_and_failures(tier):
+    from contracts import C02
+
+    for cid, c in C02.cases_rows(tier):
+        if c.get("fail_real") is not None or c.get("fail_pert") is not None:
+            yield cid, c
+
+
+def scn_filters_and_failures(T, case):
+    """Function values when realization filters (on some functions only), failed realizations and a combined or split function/gradient request come together: a realization that failed only through its perturbations still counts for the function estimate, one whose function evaluation failed counts for nothing - whatever weight a filter or the configuration gives it (C02's weight-row scenario under this property's prefix)."""
+    from contracts import C02
+    from contracts.reuse import Renamed
+
+    C02.scn_rows(Renamed(T, "C02.rows.", "C01.combined."), case)
+
+
 SCENARIOS = [
     Scenario("calculate_functions", scn_functions, cases_functions, {"quick": 2, "thorough": 10}),
     Scenario("calculate_functions_stddev_given_weights", scn_functions, cases_stddev, {"quick": 5, "thorough": 20}),
+    Scenario("calculate_functions_three_of_a_kind_interleaved_maps", scn_functions, cases_wide, {"quick": 3, "thorough": 10}),
     Scenario("user_domain_results", scn_user_results, cases_user_results, {"quick": 3, "thorough": 20}),
     Scenario("plan_steps_hand_over", scn_steps, cases_steps, {"quick": 1, "thorough": 2}),
+    Scenario("filters_failures_and_combined_requests", scn_filters_and_failures, cases_filters_and_failures, {"quick": 5, "thorough": 30}),
 ]
 
 MANIFEST = {
@@ -227,6 +264,6 @@ MANIFEST = {
             "request building, NaN propagation, failure flags, min-success gate, filter row mapping, weight zeroing/renormalisation, default mean/stddev estimators, "
             "weighted objective) discharged by z3 for all real evaluator outputs, weights and filter outputs; complete per enumerated shape (R<=3, J<=2, K<=1, batch<=2), "
             "failure mask, estimator map and filter-index map.",
-    "note": "floats as extended reals (no rounding); sqrt uninterpreted; realization filters abstract (their own contracts are C04/C05); bounded in shape only",
+    "note": "floats as extended reals (no rounding); sqrt uninterpreted; realization filters abstract (their own contracts are C04/C05); bounded in shape only (three functions of a kind with interleaved estimator/filter maps: given weights)",
     "technique": "contract-based deductive verification: symbolic execution of the real source under sidecar contracts, VCs discharged by z3/cvc5; bounded run-time contract checking as stand-in",
 }
